@@ -59,6 +59,32 @@ theorem C02_source_denitr_removes_exactly (m : MathFns ℚ) (s : St ℚ) (h3 : 3
   refine ⟨?_, hle⟩
   simpa [add_assoc] using hs
 
+theorem denitLayer_nonneg (c frac d : ℚ) (hc : 0 ≤ c) : 0 ≤ denitLayer c frac d := by
+  unfold denitLayer Nitro.clamp0
+  split
+  · split
+    · exact le_refl _
+    · linarith
+  · exact hc
+
+/-- **C07, nitrate stays non-negative through denitrification, for the source**: for every state with non-negative nitrate in the
+three top layers, whatever the rate (any `exp`/`pow`), the nitrate the translated `Denitr` leaves in those layers is ≥ 0. -/
+theorem C07_source_denitr_nonneg (m : MathFns ℚ) (s : St ℚ) (h3 : 3 ≤ s.g_C1.length)
+    (h0 : 0 ≤ rd s.g_C1 0) (h1 : 0 ≤ rd s.g_C1 1) (h2 : 0 ≤ rd s.g_C1 2) :
+    0 ≤ rd (Generated.Imp.Denitr.run m s).g_C1 0 ∧ 0 ≤ rd (Generated.Imp.Denitr.run m s).g_C1 1 ∧
+      0 ≤ rd (Generated.Imp.Denitr.run m s).g_C1 2 := by
+  obtain ⟨hc, _, _, _⟩ := denitr_refines m s h3
+  unfold denitr at hc
+  by_cases hn : 0 < rd s.g_C1 0 + rd s.g_C1 1 + rd s.g_C1 2
+  · simp only [hn, if_true, List.cons.injEq, and_true] at hc
+    obtain ⟨e0, e1, e2⟩ := hc
+    rw [e0, e1, e2]
+    exact ⟨denitLayer_nonneg _ _ _ h0, denitLayer_nonneg _ _ _ h1, denitLayer_nonneg _ _ _ h2⟩
+  · simp only [hn, if_false, List.cons.injEq, and_true] at hc
+    obtain ⟨e0, e1, e2⟩ := hc
+    rw [e0, e1, e2]
+    exact ⟨h0, h1, h2⟩
+
 /-- non-vacuity: a concrete state -/
 def demoState : St ℚ :=
   { p_thetasatFromPorges := true, g_WG_1 := [0.3, 0.3, 0.3], v_thetasat := 0, g_PORGES := [0.4, 0.4, 0.4], g_C1 := [10, 5, 2, 7],
